@@ -405,10 +405,41 @@ func readSchedules(path string) [][]int {
 
 // ---- free-running stress (meant for the -race build) ------------------------------------
 
+// burstGroups: the read APIs by kind.  A focused burst lets every goroutine make calls of ONE
+// kind with many distinct arguments in a tight loop: state that one API family shares
+// between calls (a cache keyed by the argument, a memo, a pooled buffer) is hit at a rate the
+// mixed runs never reach -- also when it is properly locked and only its logic is wrong.
+var burstGroups = map[string][]string{
+	"point": {"GetID", "Get", "RangeGet", "Search", "GetI", "RangeGet", "Search"},
+	"scan":  {"ScanFrom", "ScanFromTo", "Iter", "Iter", "ScanFrom"},
+	"whole": {"Stat", "String", "Marshal", "ProtoMarshal"},
+}
+
+func pickGroupCalls(r *rand.Rand, c *TrieCase, k int, group string) []readCall {
+	apis := burstGroups[group]
+	qs := querySet(r, c.Keys, 60)
+	calls := make([]readCall, k)
+	for i := range calls {
+		rc := readCall{API: apis[r.Intn(len(apis))], Q: qs[r.Intn(len(qs))], Q2: qs[r.Intn(len(qs))], N: 1 + r.Intn(5)}
+		if len(c.Keys) > 0 && r.Intn(2) == 0 {
+			rc.Q = c.Keys[r.Intn(len(c.Keys))]
+		}
+		calls[i] = rc
+	}
+	return calls
+}
+
 func stressEv(c *TrieCase, st, twin *trie.SlimTrie, r *rand.Rand, nG int, dur time.Duration, scansOK bool) Ev {
+	return stressEvGroup(c, st, twin, r, nG, dur, scansOK, "")
+}
+
+func stressEvGroup(c *TrieCase, st, twin *trie.SlimTrie, r *rand.Rand, nG int, dur time.Duration, scansOK bool, group string) Ev {
 	trie.VerifHook = nil
 	userGate = nil
 	calls := pickCalls(r, c, 24, scansOK)
+	if group != "" {
+		calls = pickGroupCalls(r, c, 48, group)
+	}
 	solo := make([]string, len(calls))
 	for i, rc := range calls {
 		solo[i] = doCall(c, twin, rc)
@@ -455,7 +486,7 @@ func stressEv(c *TrieCase, st, twin *trie.SlimTrie, r *rand.Rand, nG int, dur ti
 	if len(first) > 200 {
 		first = first[:200]
 	}
-	return Ev{"ev": "stress", "goroutines": nG, "calls": total, "mismatch": mismatch, "first": first, "hashchanged": b2i(deepHash(st) != base)}
+	return Ev{"ev": "stress", "goroutines": nG, "calls": total, "mismatch": mismatch, "first": first, "hashchanged": b2i(deepHash(st) != base), "group": group}
 }
 
 // freshTwin: another instance with the same content (rebuilt, or reloaded from bytes)
@@ -479,6 +510,9 @@ func freshTwin(c *TrieCase, st *trie.SlimTrie, loaded bool) *trie.SlimTrie {
 }
 
 // ---- generator ---------------------------------------------------------------------------
+
+// burstMode: the stress phase makes focused bursts (one API kind per run) instead of mixed runs
+var burstMode bool
 
 func genConc(t *Tracer, m *Meta, tier string, seed int64, schedFile string, stressOnly bool) {
 	r := rand.New(rand.NewSource(seed*67867967 + 11))
@@ -538,6 +572,32 @@ func genConc(t *Tracer, m *Meta, tier string, seed int64, schedFile string, stre
 			m.class("instance:fresh")
 		}
 		return st
+	}
+	if stressOnly && burstMode {
+		nInst, dur := 6, 160*time.Millisecond
+		if !quick {
+			nInst, dur = 24, 600*time.Millisecond
+		}
+		for i, c := range mkInstances(nInst) {
+			st := startCase(c, i%2 == 1 || c.legacyLayout != "")
+			if st == nil {
+				continue
+			}
+			cpl := c.Opt4[3] == 1 || (c.Opt4[1] == 1 && c.Opt4[2] == 1)
+			twin := freshTwin(c, st, i%2 == 1)
+			for _, group := range []string{"point", "scan", "whole"} {
+				if group == "scan" && !(cpl || len(c.Keys) == 0) {
+					continue
+				}
+				for _, nG := range []int{4, 16} {
+					fresh := freshTwin(c, st, i%2 == 1)
+					t.Emit(stressEvGroup(c, fresh, twin, r, nG, dur, true, group))
+					m.Calls++
+				}
+				m.class("burst:" + group)
+			}
+		}
+		return
 	}
 	if stressOnly {
 		nInst, dur := 4, 1500*time.Millisecond
@@ -651,7 +711,8 @@ func concReplay(t *Tracer, name string, e map[string]interface{}, c **TrieCase, 
 		r := rand.New(rand.NewSource(99))
 		var worst Ev
 		for i := 0; i < 8; i++ {
-			ev := stressEv(*c, freshTwin(*c, st, false), st, r, int(e["goroutines"].(float64)), 700*time.Millisecond, cpl || len((*c).Keys) == 0)
+			group, _ := e["group"].(string)
+			ev := stressEvGroup(*c, freshTwin(*c, st, false), st, r, int(e["goroutines"].(float64)), 700*time.Millisecond, cpl || len((*c).Keys) == 0, group)
 			if worst == nil || ev["mismatch"].(int) > worst["mismatch"].(int) {
 				worst = ev
 			}
